@@ -88,6 +88,15 @@ def explore(ctx):
             for pos in range(zlen_bound):
                 for mask in (1, 0x80, 0xff):
                     lines.append("comp p%d ctype=1 data=%s corrupt=%d:%d" % (n, d.hex() or "-", pos, mask)); n += 1
+        # LARGE gzip payloads (beyond 64 KiB and beyond any buffer a reader might pre-size): every byte of the 8-byte trailer
+        # (CRC-32, length) and some body bytes, one at a time - an error or the original, never another value
+        for size, unit in ((70000, b"\0"), (139264, b"abcdefgh"), (66000, None), (200000 if tier != "quick" else 90000, b"\7\0")):
+            d = rng.bytes(size) if unit is None else unit * (size // len(unit))
+            for pos in range(-8, 0):
+                for mask in (1, 0x10, 0x80):
+                    lines.append("comp p%d ctype=1 data=%s corrupt=%d:%d" % (n, d.hex(), pos, mask)); n += 1
+            for _ in range(6):
+                lines.append("comp p%d ctype=1 data=%s corrupt=%d:%d" % (n, d.hex(), 10 + rng.below(200), 1 << rng.below(8))); n += 1
         for _ in range({"quick": 300, "thorough": 5000, "search": 800}[tier]):
             d = mp.enc(mp.gen_value(rng, 3))
             if rng.chance(1, 2):
